@@ -55,6 +55,9 @@ def main(argv=None):
     t0 = time.time()
     mod = importlib.import_module(f"props.{prop.lower()}")
     joblist = mod.jobs(tier)
+    import glob
+    for f in glob.glob(os.path.join(HERE, "evidence", "replays", f"{prop}_*.json")):
+        os.remove(f)
     idxs = [i for i, j in enumerate(joblist) if a.only is None or a.only in j.name]
     from symex import findings, evidence
     lemmas = mod.lemmas(tier) if hasattr(mod, "lemmas") else []
